@@ -158,6 +158,34 @@ func genC19(r *Run) {
 	rec(nil)
 	r.Extra["exhaustive_alphabet"] = fmt.Sprintf("%v up to length %d", alpha, maxLen)
 
+	// 1b. pointers into the middle of a label: the octets read from there form another label chain
+	// (shorter or longer than the 253-octet limit) than the sequential reading sees
+	for i := 0; i < r.N(300, 20000); i++ {
+		k := 1 + r.Rng.Intn(6)
+		region := dualRegion(k)
+		var b []byte
+		off := 1
+		if r.Rng.Intn(2) == 0 { // forward pointer
+			b = append([]byte{0xc0, 3}, region...)
+			b[1] = 3
+			off = 3
+			_ = off
+		} else {
+			b = append(append([]byte{}, region...), 0xc0, 1)
+		}
+		if r.Rng.Intn(3) == 0 { // shift the entry point inside the first block
+			j := 1 + 5*r.Rng.Intn(12)
+			if b[0] == 0xc0 {
+				b[1] = byte(2 + j)
+			} else {
+				b[len(b)-1] = byte(j)
+			}
+		}
+		r.Count(fmt.Sprintf("dual_reading_blocks=%d", k))
+		r.Add(eLabelFrom, b)
+		r.Add(eLabelReenc, b)
+	}
+
 	// 2. random lists of valid names; direct oracle: round trip on the real code
 	lens := []int{1, 1, 2, 3, 5, 10, 30, 62, 63}
 	randLabel := func() string {
